@@ -50,6 +50,14 @@ theorem log_source : C09.logFields =
      "GlobalUnderDeliveryGHS: int(p.stats.globalUnderDeliveryGHS.Load())",
      "NextCyclePartialDeliveryTargetGHS: int(p.stats.deliveryTargetGHS)"] := by decide
 
+/-- the share callback of partial miners calls the one-cycle jobs off when the cycle's average rate has reached the
+contracted rate *plus the shortfall carried so far* — what `Model.Delivery.cutoff` is written from -/
+theorem cutoff_source : C09.cutoffStmts =
+    ["p.stats.onPartialMinerShare(diff, ID)",
+     "actualCycleGHS := hr.JobSubmittedToGHSV2(p.stats.totalJob(), p.contractCycleDuration)",
+     "expectedCycleGHS := p.HashrateGHS() + float64(p.stats.globalUnderDeliveryGHS.Load())",
+     "if actualCycleGHS >= expectedCycleGHS { p.removeAllPartialMiners() }"] := by decide +kernel
+
 /-! ### the accounting -/
 
 theorem tA : thresholdAdjust = 100 := by decide
@@ -283,6 +291,32 @@ theorem small_contract_alternates :
 example : Steady { H := 300, target := 300 } ∧ thresholdAdjust < (300 : Int) := ⟨⟨rfl, rfl, rfl⟩, by decide⟩
 example : (cycle ideal { H := 300, target := 300 } 120).2 = 180 := by decide
 example : (cycle ideal (cycle ideal { H := 300, target := 300 } 120).1 0).2 = 420 := by decide
+
+/-! ### the cut-off leaves room for the make-up -/
+
+/-- **a cycle that runs up to the cut-off has made up everything that was owed**: delivering the contracted rate plus the
+carried shortfall brings the cumulative shortfall to zero -/
+theorem cutoff_makes_up (a : Acc) (offered : Int) (hfull : a.full ≤ a.H + a.gU) (henough : a.H + a.gU ≤ offered) :
+    (cycleEnd a (cutoff a offered)).gU = 0 := by
+  simp only [cycleEnd, cutoff]; omega
+
+/-- the cut-off never stops the partial miners short of the plain rate while something is owed -/
+theorem cutoff_not_below_rate (a : Acc) (offered : Int) (howed : 0 ≤ a.gU) (h : a.H ≤ offered) : a.H ≤ cutoff a offered := by
+  simp only [cutoff]; omega
+
+/-- and never lets a cycle run ahead of what is owed by partial miners: the cumulative account does not go negative through
+them (only whole miners, which the callback does not touch, can take it there) -/
+theorem cutoff_not_ahead (a : Acc) (offered : Int) (hfull : a.full ≤ a.H + a.gU) : 0 ≤ (cycleEnd a (cutoff a offered)).gU := by
+  simp only [cycleEnd, cutoff]; omega
+
+/-- a cut-off at the plain rate (the shortfall term dropped) would never repay anything: the cumulative shortfall cannot
+decrease in any cycle — the clause "what one cycle fell short is made up in the following ones" depends on that term -/
+theorem plain_cutoff_never_makes_up (a : Acc) (offered : Int) :
+    a.gU ≤ (cycleEnd a (min offered (max a.H a.full))).gU ∨ a.H < a.full := by
+  simp only [cycleEnd]; omega
+
+-- the premises are satisfiable: 300 GH/s owed on a 400 GH/s contract, 900 on offer
+example : (cycleEnd { H := 400, gU := 300, target := 700 } (cutoff { H := 400, gU := 300, target := 700 } 900)).gU = 0 := by decide
 
 /-! ### the population the allocator cannot serve (known finding) -/
 
